@@ -169,6 +169,9 @@ EXPORT errno_t _wcsfc_s_chk(wchar_t *restrict dest, rsize_t dmax,
                           ESLEMAX);
             return RCNEGATE(ESLEMAX);
         }
+        /* up to 4 elements are stored per character, on every path */
+        if (unlikely(dmax < 5))
+            goto too_small;
         c = iswfc(cp);
 #if SIZEOF_WCHAR_T == 2
         if (cp > 0xffff)
